@@ -223,6 +223,26 @@ def generate(tier):
                     assign[w], ranks[w] = ch, rk
                     for cfg in ('PO', 'OP_O'):
                         cases.append(build(shape, focus, ''.join(assign), tuple(ranks), cfg, tag='|vwide'))
+    # degenerate siblings around the focus variant: zero-field tuple / struct variants before and after it (flags computed per variant must not leak)
+    T0, N0, U_ = S.Fields('t', 0), S.Fields('n', 0), S.Fields('u')
+    for style in 'tn':
+        for n in (1, 2):
+            fl = S.Fields(style, n)
+            for sibs, focus in (([fl, T0], 0), ([fl, N0], 0), ([T0, fl], 1), ([N0, fl], 1), ([fl, T0, U_], 0), ([U_, fl, N0, T0], 1), ([S.Fields('t', 1), fl, T0], 1)):
+                for assign in itertools.product('cim', repeat=n):
+                    for cfg in CFGS:
+                        cases.append(build(S.Shape('enum', sibs), focus, ''.join(assign), (None,) * n, cfg, tag='|degenerate-siblings'))
+    # extreme explicit ranks next to unranked fields (the default rank of field i is the smallest value + i: explicit ranks order after all of them)
+    for style in 'tn':
+        for n in (2, 3):
+            fl = S.Fields(style, n)
+            for shape, focus in placements(fl, 'quick')[:2]:
+                for w in range(n):
+                    for rk in (-2147483649, -4294967296, -9223372036854775800, 9223372036854775807, 2147483648, -2147483648):
+                        ranks = [None] * n
+                        ranks[w] = rk
+                        for cfg in CFGS:
+                            cases.append(build(shape, focus, 'c' * n, tuple(ranks), cfg, tag='|extreme-rank'))
     # spelling x parameter order x trailing comma, fully, on one- and two-field elements
     for style in 'tn':
         for shape, focus in placements(S.Fields(style, 2), 'quick')[:2]:
@@ -280,6 +300,8 @@ def generate(tier):
             r_ = tr(c)
             if r_:
                 cases.append(r_)
+    from .common import decoy_layer
+    cases += decoy_layer([c for c in cases if c is not None])
     seen, out = set(), []
     for c in cases:
         if c.key not in seen:
